@@ -305,3 +305,41 @@ Theorem pcsd_flatten sd nrm N n Fs (dims : list nat) (S : list nat -> sig) (X : 
   pcsd sd nrm N n Fs X (flat_index dims a) (flat_index dims b) f
   =c= pcsd_kernel sd nrm N n Fs (S a) (S b) f.
 Proof. intros H. rewrite pcsd_entry. apply pcsd_kernel_ext; apply H. Qed.
+
+(* ------------------------------------------------------------------ multi_taper_csd as a PSD route
+   (C04): the diagonal with fixed eigenvalue weights integrates to the lam-weighted tapered power, and
+   its one-sided form is the fold of the two-sided one.  N is the TRANSFORM length (NFFT): the model of
+   mtm_cross_spectrum / multi_taper_csd has no other length argument, so which bins are doubled
+   (1 .. Fl N - 1) depends on NFFT only, never on the number of samples. *)
+Theorem mtcsd_parseval sd N K Fs (rt lam : nat -> Q) (d : nat -> nat -> Q) (Y : nat -> nat -> sig) i (E : nat -> Q) :
+  (0 < N)%nat -> ~ Fs == 0 ->
+  (forall k, (k < K)%nat -> rt k * rt k == lam k) ->
+  ~ sumn lam K == 0 ->
+  (forall f, d i f * d i f == auto_denom K (fun k _ => rt k) f) ->
+  (forall k, (k < K)%nat -> sumn (fun f => cnorm2 (Y i k f)) N == inj N * E k) ->
+  (sd = OneSided -> forall k f, (k < K)%nat -> (0 < f < N)%nat -> Y i k (N - f)%nat =c= cconj (Y i k f)) ->
+  sumn (fun f => re (mtcsd sd N K Fs (fun _ k _ => rt k) d Y i i f) * (Fs / inj N)) (out_len sd N)
+  == sumn (fun k => lam k * E k) K / sumn lam K.
+Proof.
+  intros HN HF Hrt HL Hd HE Hs.
+  rewrite <- (mt_parseval sd N K Fs rt lam (Y i) E HN HF Hrt HL HE Hs).
+  apply sumn_ext; intros f _.
+  rewrite (mtcsd_diag_is_psd sd N K Fs (fun _ k _ => rt k) d Y i f (Hd f)). reflexivity.
+Qed.
+
+Theorem mtcsd_diag_onesided_is_fold N K Fs (w : nat -> nat -> nat -> Q) (d : nat -> nat -> Q) (Y : nat -> nat -> sig) i f :
+  (0 < N)%nat -> (f < Fn N)%nat ->
+  (forall g, d i g * d i g == auto_denom K (w i) g) ->
+  (forall k f, (k < K)%nat -> (0 < f < N)%nat -> Y i k (N - f)%nat =c= cconj (Y i k f)) ->
+  (forall k f, (k < K)%nat -> (0 < f < N)%nat -> w i k (N - f)%nat == w i k f) ->
+  re (mtcsd OneSided N K Fs w d Y i i f) == fold2 N (fun g => re (mtcsd TwoSided N K Fs w d Y i i g)) f.
+Proof.
+  intros HN Hf Hd HY Hw.
+  rewrite (mtcsd_diag_is_psd OneSided N K Fs w d Y i f (Hd f)).
+  change (re (ofQ (mt_psd OneSided N K Fs (w i) (Y i) f))) with (mt_psd OneSided N K Fs (w i) (Y i) f).
+  rewrite (mt_onesided_is_fold N K Fs (w i) (Y i) f HN Hf HY Hw).
+  unfold fold2. destruct ((1 <=? f) && (f <? Fl N))%bool.
+  - rewrite (mtcsd_diag_is_psd TwoSided N K Fs w d Y i f (Hd f)),
+            (mtcsd_diag_is_psd TwoSided N K Fs w d Y i (N - f)%nat (Hd _)). reflexivity.
+  - rewrite (mtcsd_diag_is_psd TwoSided N K Fs w d Y i f (Hd f)). reflexivity.
+Qed.
